@@ -24,7 +24,14 @@ EXTRA_PROGS = [
     "import subprocess\nsubprocess.Popen('ls', shell=True)\nsubprocess.call(['ls'])\n",
     "import hashlib\nhashlib.md5()\nimport random\nrandom.random()\n",
     "try:\n    import yaml\nexcept ImportError:\n    pass\nyaml.load(f)\n",
+    # nosec comments naming IDs next to other findings of the same statement; calls configured through shell_injection
+    "import subprocess\nsubprocess.Popen('ls -l', shell=True)  # nosec B602\nsubprocess.run('ls *', shell=True)  # nosec B609, B607\nassert x  # nosec B101\n"
+    "subprocess.run(['ls'])\nmyspawn('ls', shell=True)\nexec(y)  # nosec B999\n",
 ]
+# user configurations under which the same law must hold (the configuration is the same in both runs)
+CONFIGS = [None,
+           {"shell_injection": {"subprocess": ["subprocess.Popen", "subprocess.call", "myspawn"], "shell": ["os.system"], "no_shell": ["os.execl"]}},
+           {"hardcoded_tmp_directory": {"tmp_dirs": ["/var/data"]}, "try_except_pass": {"check_typed_exception": True}}]
 
 
 def spec_filter(all_ids, bl_ids, inc, exc):
@@ -97,12 +104,27 @@ def run(R, replay=None):
     n_sel = 8 if R.tier == "quick" else 40
     pool = sorted(all_ids)
     key = lambda r: (r["test_id"], r["test"], r["sev"], r["conf"], r["cwe"], r["text"], r["lineno"], tuple(r["linerange"]), r["col"], r["ecol"])
-    for data in progs:
-        full = impl.scan_bytes(data)
+    import yaml
+    cfg_files = []
+    for ci, cfg in enumerate(CONFIGS):
+        if cfg is None:
+            cfg_files.append(None)
+        else:
+            cf = os.path.join(impl.scratch(), "c05cfg%d.yaml" % ci)
+            yaml.safe_dump(cfg, open(cf, "w"))
+            cfg_files.append(cf)
+    for pi, data in enumerate(progs):
+        # examples under the default configuration; the hand-written programs under every configuration in turn
+        cfg_file = cfg_files[pi % len(cfg_files)] if pi >= len(files) else None
+        full = impl.scan_bytes(data, config_file=cfg_file)
         if full["skipped"]:
             continue
         present = sorted({r["test_id"] for r in full["results"]} | {"B402", "B404"})
         targeted = [("include", [i], []) for i in present[:4]] + [("exclude", [], [i]) for i in present[:4]]
+        import re as _re
+        named = sorted(set(_re.findall(r"\bB\d{3}\b", " ".join(_re.findall(rb"#\s*nosec([^\n]*)", data)[0:8] and [x.decode("latin-1") for x in _re.findall(rb"#\s*nosec([^\n]*)", data)]))))
+        if named:
+            targeted += [("exclude", [], [i]) for i in named[:3]] + [("exclude", [], named)]
         for k in range(n_sel + len(targeted)):
             if k < len(targeted):
                 mode, inc, exc = targeted[k]
@@ -112,7 +134,7 @@ def run(R, replay=None):
                 exc = [x for x in rng.sample(pool, rng.randint(1, 6)) if x not in inc] if mode in ("exclude", "both") else []
             sel = spec_filter(all_ids, bl_ids, inc, exc)
             try:
-                o = impl.scan_bytes(data, include=inc, exclude=exc)
+                o = impl.scan_bytes(data, include=inc, exclude=exc, config_file=cfg_file)
             except Exception as e:
                 R.violations.append({"what": "scan under a selection raised %r" % e, "input": {"include": inc, "exclude": exc}, "observed": None, "signature": None})
                 continue
@@ -127,7 +149,7 @@ def run(R, replay=None):
                 if extra_f and all(g[1] == "blacklist" for g in extra_f) and not [w for w in want if w not in got]:
                     sig = "blacklist-one-finding-per-node"
                 R.violations.append({"what": "findings under the selection differ from the selected findings of the unrestricted run",
-                                     "input": {"program": data.decode("utf-8", "replace")[:400], "include": inc, "exclude": exc},
+                                     "input": {"program": data.decode("utf-8", "replace")[:400], "include": inc, "exclude": exc, "config": cfg_file and open(cfg_file).read()},
                                      "observed": {"extra": [(g[0], g[6]) for g in got if g not in want][:5],
                                                   "missing": [(w[0], w[6]) for w in want if w not in got][:5]}, "signature": sig})
     # ---- (3) contradictory selections are rejected
